@@ -73,6 +73,17 @@ Jacobi(a, n) == JacR(a, n, 1)
 Euler(a, p) == LET x == BModExp(a, BShr(BSub(p, <<1>>), 1), p) IN
                IF x = <<>> THEN 0 ELSE IF x = <<1>> THEN 1 ELSE IF x = BSub(p, <<1>>) THEN 0 - 1 ELSE 2
 
+(* strong pseudoprimality of n to base b, by the definition (n odd, n > 2) *)
+RECURSIVE TwoAdic(_, _)
+TwoAdic(d, s) == IF BBit(d, 0) = 1 THEN <<d, s>> ELSE TwoAdic(BShr(d, 1), s + 1)
+RECURSIVE SpspLoop(_, _, _)
+SpspLoop(x, n, r) == IF r = 0 THEN FALSE
+                     ELSE IF x = BSub(n, <<1>>) THEN TRUE
+                     ELSE SpspLoop(BMulMod(x, x, n), n, r - 1)
+StrongPsp(n, b) == LET ds == TwoAdic(BSub(n, <<1>>), 0)
+                       x  == BModExp(b, ds[1], n)
+                   IN  x = <<1>> \/ SpspLoop(x, n, ds[2])
+
 (***************************************************************************)
 (* trial division bound of bn_is_prime_basic: the table of small primes    *)
 (* ends at 223 in 8-bit builds and at 3671 otherwise                       *)
@@ -227,7 +238,7 @@ GcdMidAccept(ev) ==
         det == ISub(IMul(c, f), IMul(d, e))
         short(x) == BLe(BMul(x.mag, x.mag), BShl(b.mag, 1))    \* |x| <= sqrt(2b): the code stops at floor(sqrt(b))
     IN  IF a.neg \/ b.neg \/ ~BLt(<<1>>, a.mag) \/ ~BLt(a.mag, b.mag) \/ BGcd(a.mag, b.mag) # <<1>>
-           \/ BLt(b.mag, <<32>>)
+           \/ BLt(b.mag, <<32>>) \/ BLe(BMul(a.mag, a.mag), BShl(b.mag, 1))     \* a itself already short: not driven
         THEN TRUE
         ELSE /\ Done(ev)
              /\ InLat(c, d) /\ InLat(e, f)
@@ -410,6 +421,10 @@ BntKnownKey(e) ==
       [] e.op = "bn_gen_prime_stron" /\ Done(e) /\ Normal(e.c, e.w) /\ e.c.s = 0
               /\ BIsPrime(MagOf(e.c)) /\ BBits(MagOf(e.c)) < e.bits
             -> "C09-genprime-stron-short"
+      [] e.op \in {"bn_is_prime", "bn_is_prime_rabin"} /\ e.a.s = 0 /\ BBits(MagOf(e.a)) >= 850
+              /\ BBit(MagOf(e.a), 0) = 1 /\ Done(e) /\ e.ret = 1 /\ ~BIsPrime(MagOf(e.a))
+              /\ StrongPsp(MagOf(e.a), <<2>>) /\ StrongPsp(MagOf(e.a), <<3>>) /\ StrongPsp(MagOf(e.a), <<5>>)
+            -> "C09-isprime-fixed-bases-strong-pseudoprime"
       [] e.op = "bn_rec_jsf" /\ e.err = 0 /\ e.ovf
               /\ BBits(MagOf(e.l)) > BBits(KMag(e)) /\ e.rcap >= 2 * BBits(KMag(e)) + 1
               /\ e.rcap < 2 * (BBits(MagOf(e.l)) + 1)
